@@ -74,7 +74,7 @@ func engineFixture(verif string) (res fixtureResult) {
 				bad[name] = true
 			}
 		}
-		for _, n := range []string{"badIndex", "goodIndex", "goodExitGuard", "badExitGuardSameBlock", "badSlice", "goodSlice", "goodLoop", "badLoop", "goodSum", "badSum", "goodAfterLoop", "badAfterLoop", "badNestedGuard"} {
+		for _, n := range []string{"badIndex", "goodIndex", "goodExitGuard", "badExitGuardSameBlock", "badSlice", "goodSlice", "goodLoop", "badLoop", "goodSum", "badSum", "goodAfterLoop", "badAfterLoop", "badNestedGuard", "goodToggle", "badToggle"} {
 			if !seen[n] {
 				res.Failures = append(res.Failures, "fact engine: no site found in "+n)
 				continue
